@@ -80,6 +80,12 @@ class GameFacts:
         return self.T > t_limit(self.n)
 
     @property
+    def slow(self):
+        """True if T > 300: used by checks that are not about convergence (histories, batches, reports) to keep
+        their cases cheap."""
+        return self.T > T_MAX
+
+    @property
     def R(self):
         return max([float(r) for r in self.game["rewards"]] + [0.0])
 
